@@ -169,6 +169,38 @@ def gen_program(kind: str, idx: int, seed: int) -> str:
 
 C03_FIXED = [
     """
+def q7(x: int, y: int) -> int:
+    s = 0
+    for i in range(x, x + 3):
+        emit(i)
+    for j in range(x + 2, x - 2, -1):
+        emit(j)
+    for k in range(0, x, 2):
+        s += k
+    for m in range(3):
+        s += m
+    for w in range(x):
+        s -= w
+    return s
+""",
+    """
+def q8(x: int, y: int) -> int:
+    def clamp(v: int, lo: int, hi: int) -> int:
+        if v < lo:
+            return lo
+        if v > hi:
+            return hi
+        return v
+    t = (clamp(x, 0, 2), clamp(y, -5, 5))
+    a, b = t
+    ok = a <= b and not (a == 0 or b == 0)
+    n = 0
+    while n < 3 and ok:
+        n += 1
+        ok = n * a < b
+    return a * 10 + b + n
+""",
+    """
 def q6(x: int, y: int) -> int:
     if 0 < x < 10 // x < 5 != y:
         return 1
